@@ -74,6 +74,27 @@ class Tr:
             if [t for t, _ in a] != ["T", "T"]:
                 raise Unsupported("dot of non-tensors")
             return "R", "(t_dot %s %s)" % (a[0][1], a[1][1])
+        if isinstance(f, ast.Attribute) and f.attr == "dim" and not e.args and not e.keywords:
+            ty, x = self.texpr(f.value)
+            if ty != "T":
+                raise Unsupported("dim of a non-tensor")
+            return "N", "(t_dim %s)" % x
+        if n == "tn.weight" and len(e.args) == 1 and not e.keywords:
+            ty, x = self.texpr(e.args[0])
+            if ty != "N":
+                raise Unsupported("weight of a non-integer")
+            return "T", "(t_weight %s)" % x
+        if n == "tn.mask" and len(e.args) == 2 and not e.keywords:
+            a = [self.texpr(x) for x in e.args]
+            if [t for t, _ in a] != ["T", "T"]:
+                raise Unsupported("mask of non-tensors")
+            return "T", "(t_mask %s %s)" % (a[0][1], a[1][1])
+        if n == "tn.sobol" and len(e.args) == 2 and len(e.keywords) == 1 and e.keywords[0].arg == "marginals":
+            a = [self.texpr(x) for x in e.args]
+            g = self.texpr(e.keywords[0].value)
+            if [t for t, _ in a] != ["T", "T"] or g[0] != "G":
+                raise Unsupported("sobol with argument kinds %s" % ([t for t, _ in a] + [g[0]]))
+            return "R", "(t_sobol %s %s %s)" % (a[0][1], a[1][1], g[1])
         if n == "tn.mean" and len(e.args) == 1 and not e.keywords:
             ty, x = self.texpr(e.args[0])
             return "R", "(t_mean %s)" % x
@@ -184,6 +205,15 @@ class Tr:
             if isinstance(s, ast.Assign) and isinstance(s.targets[0], ast.Tuple) and isinstance(s.value, ast.Call) \
                     and qname(s.value.func) == "_process":
                 continue                      # both operands compressed: _process is the identity
+            if isinstance(s, ast.If) and s.orelse and isinstance(s.test, ast.Compare) and len(s.test.ops) == 1 \
+                    and isinstance(s.test.ops[0], ast.Is) and isinstance(s.test.left, ast.Name) \
+                    and isinstance(s.test.comparators[0], ast.Constant) and s.test.comparators[0].value is None \
+                    and (s.test.left.id in self.none_args or s.test.left.id in self.env):
+                # `if <optional argument> is None: A else: B` -- this variant fixes which branch runs
+                branch = s.body if s.test.left.id in self.none_args else s.orelse
+                sub = ast.FunctionDef(name="_", args=None, body=branch, decorator_list=[])
+                out = self.body(sub)
+                continue
             if isinstance(s, ast.If):
                 t = ast.unparse(s.test)
                 if "isinstance" in t and "torch.Tensor" in t:
@@ -208,7 +238,7 @@ class Tr:
         return out
 
 
-COQ_TY = {"T": "tensor", "R": "R", "B": "Prop"}
+COQ_TY = {"T": "tensor", "R": "R", "B": "Prop", "G": "marg", "N": "nat"}
 
 # (python qualified name, file, class or None, function, variants: list of (suffix, {arg: kind}, none_args))
 PLAN = [
@@ -235,6 +265,8 @@ PLAN = [
     ("tn.is_satisfiable", "logic.py", None, "is_satisfiable", [("", {"t": "T"}, [])]),
     ("tn.implies", "logic.py", None, "implies", [("", {"t1": "T", "t2": "T"}, [])]),
     ("tn.equiv", "logic.py", None, "equiv", [("", {"t1": "T", "t2": "T"}, [])]),
+    ("tn.mean_dimension", "anova.py", None, "mean_dimension",
+     [("N", {"t": "T", "marginals": "G"}, ["mask"]), ("M", {"t": "T", "mask": "T", "marginals": "G"}, [])]),
 ]
 
 HEADER = """(* GENERATED on every run from the current source of /repo/tntorch by translator/py2coq.py -- never edit.
@@ -248,6 +280,11 @@ Variable t_dot : tensor -> tensor -> R.
 Variables t_add t_mul : tensor -> tensor -> tensor.
 Variables t_smul t_sadd : R -> tensor -> tensor.
 Variables t_mean t_numel t_sum : tensor -> R.
+Variable marg : Type.
+Variable t_sobol : tensor -> tensor -> marg -> R.
+Variable t_weight : nat -> tensor.
+Variable t_mask : tensor -> tensor -> tensor.
+Variable t_dim : tensor -> nat.
 """
 
 
